@@ -117,6 +117,7 @@ class Engine:
         self.trace = []
         self.asserts = []         # (z3bool, rep_atom or None, strict z3bool or None)
         self.lin_memo = {}
+        self.lin_squares = {}
         self.lin_keep = []        # keeps abstracted sub-terms alive so that ast ids stay unique
         self.decided = {}         # z3 ast id of a simplified condition -> (decision, ast) on this path
         self.defs = {}            # atom idx -> indices of its definitional axioms in self.asserts
@@ -230,6 +231,7 @@ class Engine:
             # (0) linear abstraction: every non-linear monomial becomes an independent real; unsat there is unsat
             if self.o.get("linear_first", True):
                 lz = [self._lin(zz) for zz in zs]
+                lz.extend(v >= 0 for v in self.lin_squares.values())
                 r0, _ = self._run(z3.SolverFor("QF_LRA") if not self.has_int else z3.Solver(), lz, min(timeout_ms // 4, 5000))
                 if r0 == "unsat":
                     self.stats["by_linear_abstraction"] = self.stats.get("by_linear_abstraction", 0) + 1
@@ -283,9 +285,12 @@ class Engine:
                 nums = [c for c in nch if z3.is_rational_value(c) or z3.is_int_value(c)]
                 oth = [c for c in nch if not (z3.is_rational_value(c) or z3.is_int_value(c))]
                 if len(oth) >= 2:
-                    name = "mono!" + "_".join(str(v) for v in sorted(c.get_id() for c in oth))
+                    ids = sorted(c.get_id() for c in oth)
+                    name = "mono!" + "_".join(str(v) for v in ids)
                     v = z3.Real(name) if x.sort().kind() == z3.Z3_REAL_SORT else z3.Int(name)
                     self.lin_keep.append(oth)
+                    if all(ids.count(j) % 2 == 0 for j in set(ids)):
+                        self.lin_squares[name] = v          # a perfect square monomial: >= 0 in the abstraction
                     r = z3.Product(*(nums + [v])) if nums else v
                 else:
                     r = z3.Product(*nch) if len(nch) > 1 else nch[0]
@@ -508,7 +513,7 @@ class Engine:
         """float environment for all atoms from input values (semantic evaluation of derived atoms)"""
         env = {}
         for a in S.REG.atoms:
-            if a.kind in ("var", "ivar"):
+            if a.kind in ("var", "ivar") and a.fe is None:
                 env[a.idx] = float(inputs.get(a.name, 0.0))
             else:
                 try:
@@ -531,7 +536,15 @@ class Engine:
         return out
 
     # ---------------------------------------------------------------- obligations
-    def oblige(self, name, cond):
+    def oblige(self, name, cond, then_assume=False):
+        """discharge `cond` under the current path condition; with then_assume a discharged obligation is kept as a
+        lemma for later obligations (never an undecided or violated one)"""
+        before = self.stats["discharged"]
+        self._oblige(name, cond)
+        if then_assume and self.stats["discharged"] > before and isinstance(cond, SB):
+            self._add_pc(cond, True)
+
+    def _oblige(self, name, cond):
         self.stats["obligations"] += 1
         if hasattr(cond, "ok") and hasattr(cond, "why"):
             cond = bool(cond)
@@ -938,8 +951,19 @@ class SymCtx(_CtxBase):
     def assume(self, cond):
         self.eng.assume(cond)
 
-    def oblige(self, name, cond):
-        self.eng.oblige(name, cond)
+    def define(self, name, value):
+        """fresh symbol constrained to equal `value` (keeps later terms unexpanded)"""
+        v = S.var(name)
+        S.REG.inputs.remove(_atom_of(v))
+        a = S.REG.atoms[_atom_of(v)]
+        a.kind = "def"
+        a.data = value
+        a.fe = lambda env, value=value: value.feval(env)
+        self.eng.assume(v == value)
+        return v
+
+    def oblige(self, name, cond, then_assume=False):
+        self.eng.oblige(name, cond, then_assume)
 
     def output(self, name, value):
         self.eng.outputs[name] = value
@@ -991,12 +1015,15 @@ class ConcreteCtx(_CtxBase):
     def const_array(self, values, dtype=float):
         return np.array(values, dtype=dtype)
 
+    def define(self, name, value):
+        return value
+
     def assume(self, cond):
         if not bool(cond):
             # the witness does not satisfy the precondition in floating point: not a valid replay
             raise PathAbort("assumption false in concrete replay")
 
-    def oblige(self, name, cond):
+    def oblige(self, name, cond, then_assume=False):
         self.checked += 1
         ok = bool(cond)
         if not ok:
